@@ -548,8 +548,19 @@ func (x *Exec) applyContract(c *Contract, fn *types.Func, recv *Value, args []*V
 		}
 	}
 	sc.results = results
+	crossMode := (c.Mode == "bv") != x.bv
 	for _, e := range c.Ensures {
 		if e.Local {
+			continue
+		}
+		if crossMode {
+			// a clause written for the other integer encoding may not be expressible here: skip it (weaker assumption)
+			t, ok := x.tryEvalSpecBool(e, sc, st)
+			if !ok {
+				x.note("postcondition of " + c.Key + " not usable across integer modes: " + trunc(e.Src, 60))
+				continue
+			}
+			x.assume(st, t)
 			continue
 		}
 		x.assume(st, x.evalSpecBool(e, sc, st))
@@ -845,4 +856,13 @@ func (x *Exec) evalAppend(call *ast.CallExpr, st *State) *Value {
 	}
 	res := MkSliceC(Ite(fits, SArr(base.Tm), ref), Ite(fits, SOff(base.Tm), IntLit(0)), newLen, Ite(fits, SCap(base.Tm), newCap))
 	return &Value{T: t, Tm: x.vc.define("appres", res)}
+}
+
+func (x *Exec) tryEvalSpecBool(c Clause, sc *SpecScope, st *State) (t *Term, ok bool) {
+	defer func() {
+		if r := recover(); r != nil {
+			t, ok = nil, false
+		}
+	}()
+	return x.evalSpecBool(c, sc, st), true
 }
